@@ -171,6 +171,25 @@ func runC16(r *Report, tier string) {
 		}
 	}
 	r.floor("R16.2", nsd, 2, "built-in ES* SignDigest methods")
+	// the curve the signers size their output by is the caller's key's: the
+	// constructor stores the key it was given (its reported public half)
+	{
+		ns := P.mustFn("NewSigner")
+		nk := 0
+		for _, p := range P.ctorVPaths(ns, nil, 0) {
+			if p.keyField == nil || len(p.res) == 0 || p.res[0].Op != "iface" || !strings.Contains(strings.ToLower(p.res[0].S), "ecdsa") {
+				continue
+			}
+			nk++
+			kf := p.keyField
+			if kf.Op == "res" && kf.S == "0" && kf.Args[0].Op == "typeassert" {
+				kf = kf.Args[0].Args[0]
+			}
+			ks := kf.String()
+			r.ob("R16.2", fmt.Sprintf("NewSigner:ecdsa-key:%s:%s", p.res[0].S, p.id), ns, p.ret, "the ECDSA signer object holds the caller's key (so r||s is sized by that key's curve on both signing paths)").check(ks == "$1" || ks == "call<invoke:crypto.Signer.Public>($1)", truncate(p.keyField.String(), 100), "the signer's key field holds "+truncate(p.keyField.String(), 200)+": the signature width no longer follows the key's own curve")
+		}
+		r.floor("R16.2", nk, 2, "ECDSA signer constructions in NewSigner")
+	}
 
 	checkECDSAStrictDecode(r, "R16.3")
 }
